@@ -598,6 +598,24 @@ def fam_plain(rng, idx):
     return b.finish("plain", idx, top)
 
 
+def witness_f321():
+    """Witness of finding F321: `choice ch { case a { container n { leaf x; } } case b { leaf y; } }` with the instance [empty `n`
+    (created by the client: lyd_new_inner, `<n/>`), `y`].  A non-presence container without children has no meaning of its own
+    (RFC 7950 sec. 7.5.1): the instance is valid; libyang without fixes/F321.diff takes the empty container for data of case `a`
+    ("Data for both cases").  Returns (schema, forest)."""
+    import random
+    b = _Fam(random.Random(321))
+    x, y = b.leaf(), b.leaf()
+    x.ty = y.ty = Ty("string")
+    x.dflt = y.dflt = None
+    x.mandatory = y.mandatory = False
+    n = b.np([x])
+    ch = b.choice([b.case([n]), b.case([y])])
+    s = XSchema("vf321", [ch])
+    s.family = "f321-witness"
+    return s, [DN(n), DN(y, val=b"1")]
+
+
 class RawSchema:
     """a module given as YANG text, for requests only the harness sees (schema registration): `dsl()` is just the key the harness files
     the schema under, no model reads it"""
@@ -983,13 +1001,13 @@ class XpGen:
                 ops = ["eq", "ne"] + (["lt", "le", "gt", "ge"] if tgt.ty.name in tg.INT_POOL else [])
                 e = X.bop(r.choice(ops), P, self.lit(tgt, v))
                 return X.fn("not", e) if r.random() < 0.25 else e
-            if x < 0.67 and tgt.ty.name == "string":
+            if x < 0.72 and tgt.ty.name == "string":
                 deps.append((tgt, None))
                 y = r.random()
-                if y < 0.4 and XP_STRING_LENGTH:
+                if y < 0.5 and XP_STRING_LENGTH:
                     return X.bop(r.choice(["lt", "le", "gt", "ge", "eq"]), X.fn("string-length", P), X.num(r.choice([0, 1, 2, 3])))
                 return X.fn(r.choice(["starts-with", "contains"]), P, X.lit(r.choice(["a", "b", "1", "x", "0"])))
-            if x < 0.77:
+            if x < 0.8:
                 # leaf against another leaf of the same base type
                 other = [n for n in self.targets(ctx)[0] if n.kind == "leaf" and n is not tgt and n.ty.name == tgt.ty.name and n.ty.name != "empty"]
                 if other:
